@@ -307,7 +307,13 @@ class PeerBase:
         return out
 
     def kexinit_packet(self):
-        return wire.packet(wire.kexinit_payload(self.script['kex']))
+        pl = wire.kexinit_payload(self.script['kex'])
+        pad = self.script.get('kexinit_pad')
+        if pad:
+            # any padding of 4..255 bytes that makes the total a multiple of 8 is allowed (RFC 4253 section 6); peers that hide message sizes use long ones
+            pad = pad + (-(len(pl) + 5 + pad)) % 8
+            pad = pad if pad <= 255 else pad - 8
+        return wire.packet(pl, pad=pad or None)
 
     def reply_chatter(self):
         """script['reply_debug'] = N: N SSH_MSG_DEBUG packets (allowed at any time, RFC 4253 section 11.3) in front of every key-exchange reply and group-exchange group."""
@@ -374,7 +380,7 @@ class PeerBase:
     def ssh1_dialogue(self, c):
         p = self.script.get('ssh1', {})
         pkm = wire.ssh1_pkm(p.get('cmask', 0x48), p.get('amask', 0x0c), p.get('host_bits', 2048), p.get('server_bits', 768))
-        self.send(c, 'pkm', wire.ssh1_packet(wire.SSH1_SMSG_PUBLIC_KEY, pkm, bad_crc=bool(p.get('bad_crc'))))
+        self.send(c, 'pkm', wire.ssh1_packet(wire.SSH1_SMSG_PUBLIC_KEY, pkm, bad_crc=bool(p.get('bad_crc')), random_pad=bool(p.get('random_pad'))))
         self._drain(c)
 
     def _drain(self, c):
